@@ -14,6 +14,7 @@ symbol from a parent or the universal set, depth <= max_level when the parents a
 unmodified, and the behaviour the operator is named after."""
 from __future__ import annotations
 
+import json
 import math
 import os
 
@@ -670,6 +671,15 @@ def run(ctx, rep):
     only = os.environ.get("C08_ONLY", "")
     tm = C.Timer()
     with MR.patched_library():
+      # ------------------------------------------------------------ corpus: witnesses of the repaired defect, first on every run
+      for ent in json.load(open(os.path.join(C.VERIF, "corpus", "C08.json"))):
+          cs = ent["case"]
+          ps = [([tuple(s) for s in p[0]], list(p[1])) for p in cs["parents"]]
+          uspec = ([tuple(f) for f in cs["uniset"][0]], list(cs["uniset"][1]))
+          script = [tuple(d) for d in cs["draws"]]
+          outs, err, left = ck.mirror_script(cs["op"], ps, cs["fitness"], cs["rank"], cs["max_level"], cs["pop_size"], cs["proba"], uspec, script)
+          ck.case("corpus", cs["op"], ps, cs["fitness"], cs["rank"], cs["max_level"], cs["pop_size"], cs["proba"], uspec, script, outs, err,
+                  extra=dict(regression=ent["what"]))
       if not only or "enum" in only:
         # ------------------------------------------------------------ crossovers on two labelled parents
         pairs = [(a, b) for a in all_shapes for b in all_shapes]
@@ -681,7 +691,8 @@ def run(ctx, rep):
             pa, pb = label(sa, 0), label(sb, 8)
             ps = [(pa, list(sa)), (pb, list(sb))]
             la, lb = len(sa), len(sb)
-            for ml in sorted({max(depth(parse(pa)), depth(parse(pb))), 16}):
+            tight = max(depth(parse(pa)), depth(parse(pb)))
+            for ml in sorted({tight} | ({16} if (not ctx.quick or rng.random() < 0.15) else set())):
                 ck.enumerate("enum", "standard_crossover", ps, [1.0, 2.0], [1.0, 2.0], ml, 0, 0.0, U_BIG,
                              lambda sc: idx_u(la) if len(sc) == 0 else idx_u(lb) if len(sc) == 1 else coin)
             ncom = len(common_rec([parse(pa), parse(pb)]))
@@ -695,7 +706,7 @@ def run(ctx, rep):
                     ck.enumerate("enum", "uniform_proportional_crossover_GP", ps, w, [1.0, 2.0], 16, 0, 0.0, U_BIG, lambda sc: mids)
                     ck.enumerate("enum", "uniform_rank_crossover_GP", ps, [1.0, 2.0], w, 16, 0, 0.0, U_BIG, lambda sc: mids)
             if ncom <= 2:
-                for f in ([1.0, 2.0], [2.0, 2.0], [3.0, 0.0]):
+                for f in ([1.0, 2.0], [2.0, 2.0]) + (() if ctx.quick else ([3.0, 0.0],)):
                     ck.enumerate("enum", "uniform_tournament_crossover_GP", ps, f, [1.0, 1.0], 16, 0, 0.0, U_BIG, lambda sc: coin,
                                  max_depth=2 * ncom + 1)
         ps1 = [(label(all_shapes[-1], 0), list(all_shapes[-1]))]
@@ -711,7 +722,8 @@ def run(ctx, rep):
             mids = [float(((cs[j - 1] if j else 0.0) + cs[j]) / 2 / cs[-1]) for j in range(k) if w[j] > 0]
             ck.enumerate("enum", "uniform_rank_crossover_GP", ps, [1.0] * k, w, 16, 0, 0.0, U_BIG, lambda sc: mids, limit=100)
         # ------------------------------------------------------------ mutations on every labelled tree
-        for s in all_shapes:
+        NM = ctx.pick(6, 7)
+        for s in [s for n in range(1, NM + 1) for s in shapes(n)]:
             n = len(s)
             # swap / shrink: unique labels (the permutation is observable)
             ps = [(label(s, 0), list(s))]
@@ -752,8 +764,11 @@ def run(ctx, rep):
         harvest(ctx, rep, ck)
     C.log(f"[C08] harvested {tm.s()}s cases={len(ck.cases_big)}")
 
-    for fc in (ck.cases, ck.cases_big, ck.crk):
-        bad, errors = fc.run()
+    import concurrent.futures as cf
+    fcs = (ck.cases, ck.cases_big, ck.crk)
+    with cf.ThreadPoolExecutor(max_workers=3) as ex:       # the three families are evaluated side by side
+        results = list(ex.map(lambda fc: fc.run(), fcs))
+    for fc, (bad, errors) in zip(fcs, results):
         rep.hist("coq_cases", fc.name + ":" + str(len(fc)))
         for e in errors:
             rep.problem(fc.name, "model evaluation failed: %s" % (e,), {}, "model-eval", False)
@@ -766,7 +781,7 @@ def run(ctx, rep):
     C.log(f"[C08] model evaluated {tm.s()}s")
     rep.exhaustive = True
     rep.exhaustive_note = (f"all shapes <= {N} nodes (arities 0..3), every node labelled; two-parent crossovers on all pairs with "
-                           f"<= {ctx.pick(8, 10)} nodes in total (+ a sample of the larger pairs) x all index draws; mutations on every shape "
+                           f"<= {ctx.pick(8, 10)} nodes in total (+ a sample of the larger pairs) x all index draws; mutations on every shape <= {ctx.pick(6, 7)} nodes "
                            f"x all draws; initialisers: all outcomes for max_level <= {ctx.pick(2, 3)} up to the stated script length")
 
 
